@@ -159,6 +159,8 @@ type Ctx struct {
 	seenSig  map[string]bool
 	maxDis   int
 	curClass string
+	shrunk   int
+	inShrink bool
 }
 
 // Case records one evaluated case. stream names the correspondence stream (e.g. "sm3.hist");
@@ -185,6 +187,16 @@ func (c *Ctx) Case(stream, class string, trivial bool, sample string) {
 
 func (c *Ctx) Disagree(d Disagreement) {
 	if len(c.res.Disagreements) < c.maxDis {
+		// the first few violations of the property are minimised (greedy, budgeted) before they are recorded
+		if d.Kind == "impl!=spec" && c.shrunk < 3 && !c.inShrink {
+			c.inShrink = true
+			if small, ok := c.shrinkRequest(d.Request); ok && small != d.Request {
+				impl, _ := implFromRequest(small)
+				d.Original, d.Request, d.SpecReq, d.Impl, d.Spec, d.Shrunk = d.Request, small, specRequestOf(small), impl, c.drv.Ask(specRequestOf(small)), true
+				c.shrunk++
+			}
+			c.inShrink = false
+		}
 		c.res.Disagreements = append(c.res.Disagreements, d)
 	}
 }
